@@ -61,7 +61,7 @@ def run(ctx):
     n_enum = len(models)
     # generated values beyond TLC's bounds
     ngen = 600 if ctx.quick else 6000
-    gen = [pyval.to_model(v) for v in sc.special_values()] + sc.subclass_models()
+    gen = [pyval.to_model(v) for v in sc.special_values(extended=True)] + sc.subclass_models()
     gen += [pyval.to_model(sc.rand_value(rng, depth=rng.randint(1, 4 if ctx.quick else 6), width=rng.choice([2, 4, 8]))) for _ in range(ngen)]
     gen.append(pyval.to_model(10**4400))  # beyond the interpreter's int->str digit limit
     job = {"dump": models + gen, "modes": ["dumps", "stream", "internal"]}
